@@ -37,6 +37,8 @@ struct Fixture {
     file_id: i32,
     direct: &'static a10::AsyncFd,
     other: OwnedFd,
+    pool: a10::io::ReadBufPool,
+    group: u16,
 }
 
 thread_local! {
@@ -77,8 +79,10 @@ fn new_fixture() -> Fixture {
     drop(conv);
     let direct: &'static a10::AsyncFd = Box::leak(Box::new(direct));
     let other: OwnedFd = std::fs::File::open("/dev/null").expect("/dev/null").into();
+    let pool = a10::io::ReadBufPool::new(ring.sq(), 4, 32).expect("pool");
+    let group = *simk::kernel().rings[&rfd].pbuf.keys().next().expect("registered buffer ring");
     simk::kernel().take_notes();
-    Fixture { ring, rfd, file, file_id, direct, other }
+    Fixture { ring, rfd, file, file_id, direct, other, pool, group }
 }
 
 fn with_fixture<R>(f: impl FnOnce(&mut Fixture) -> R) -> R {
@@ -150,8 +154,12 @@ fn compare(case: &Value, fx: &Fixture, sqe: &Sqe, p: &Ptrs, out: &mut Vec<Value>
         bad("IOSQE_FIXED_FILE", e["fixed"].clone(), json!(fixed));
     }
     // IOSQE_ASYNC (16) only tells the kernel how to execute the request, not what it does.
-    if sqe.flags() & !(1 | 16) != 0 {
-        bad("other submission flags", json!(0), json!(sqe.flags() & !(1 | 16)));
+    let select = e["select"].as_bool() == Some(true);
+    if (sqe.flags() & 32 != 0) != select {
+        bad("IOSQE_BUFFER_SELECT", json!(select), json!(sqe.flags() & 32 != 0));
+    }
+    if sqe.flags() & !(1 | 16 | 32) != 0 {
+        bad("other submission flags", json!(0), json!(sqe.flags() & !(1 | 16 | 32)));
     }
     // off / addr2
     match e["off"].as_str().unwrap() {
@@ -180,6 +188,13 @@ fn compare(case: &Value, fx: &Fixture, sqe: &Sqe, p: &Ptrs, out: &mut Vec<Value>
             let n = if sqe.off() == 0 { 0 } else { unsafe { (sqe.off() as *const u32).read() } };
             if (n as usize) < std::mem::size_of::<libc::sockaddr_in>() {
                 bad("address length the kernel may write", json!(">= sizeof(sockaddr_in)"), json!(n));
+            }
+        }
+        "ANY" => {}
+        "ALLOC" => {
+            // IORING_FILE_INDEX_ALLOC: the kernel reads a 32 bit offset.
+            if sqe.off() as u32 != u32::MAX {
+                bad("off (IORING_FILE_INDEX_ALLOC)", json!(u32::MAX), json!(sqe.off()));
             }
         }
         "STATXBUF" | "SIGINFO" => {
@@ -257,6 +272,13 @@ fn compare(case: &Value, fx: &Fixture, sqe: &Sqe, p: &Ptrs, out: &mut Vec<Value>
                 }
             }
         }
+        "FDS" | "FDPTR" => {
+            if sqe.addr() == 0 {
+                bad("descriptor array pointer", json!("non-null"), json!(0));
+            } else if e["addr"] == "FDPTR" && unsafe { (sqe.addr() as *const i32).read() } != fx.file_id {
+                bad("descriptor to register", json!(fx.file_id), json!(unsafe { (sqe.addr() as *const i32).read() }));
+            }
+        }
         "MEM" => {
             if Some(sqe.addr() as usize) != p.mem {
                 bad("memory address", json!(p.mem), json!(sqe.addr()));
@@ -289,8 +311,9 @@ fn compare(case: &Value, fx: &Fixture, sqe: &Sqe, p: &Ptrs, out: &mut Vec<Value>
         bad("file_index / fd_in / length word", json!(want_idx), json!(sqe.file_index()));
     }
     let raw_40_44 = u32::from_ne_bytes(sqe.0[40..44].try_into().unwrap());
-    if raw_40_44 != 0 {
-        bad("buf_index / personality", json!(0), json!(raw_40_44));
+    let want_40_44 = if select { u32::from(fx.group) } else { 0 };
+    if raw_40_44 != want_40_44 {
+        bad("buf_group / personality", json!(want_40_44), json!(raw_40_44));
     }
     match e["addr3"].as_str().unwrap() {
         "ZERO" => {
@@ -343,6 +366,53 @@ fn errno_of<T>(r: &std::io::Result<T>) -> Option<i32> {
 }
 
 macro_rules! run_op {
+    // With buffer selection: the kernel picks a pool buffer and reports it in the completion flags.
+    ($case:expr, $fx:expr, $out:expr, $ptrs:expr, $make:expr, $ok_res:expr, $check_ok:expr, select ($rfd:expr, $group:expr)) => {{
+        for fail in [false, true] {
+            let (mut fut, ptrs) = $make;
+            let ptrs: Ptrs = ptrs;
+            match submit($fx, &mut fut) {
+                Err(msg) => {
+                    $out.push(json!({"field": "submission", "expected": "one entry", "observed": msg}));
+                    break;
+                }
+                Ok(sqe) => {
+                    if !fail {
+                        compare($case, $fx, &sqe, &ptrs, $out);
+                    }
+                    let (res, flags) = if fail { (-ERRNO, 0) } else {
+                        match simk::kernel().take_buffer($rfd, $group, b"abc") {
+                            Ok((fl, n)) => (n, fl),
+                            Err(e) => (e, 0),
+                        }
+                    };
+                    simk::kernel().complete($rfd, sqe.user_data(), res, flags);
+                    let _ = $fx.ring.poll(Some(Duration::ZERO));
+                    match poll_once(&mut fut) {
+                        Poll::Pending => $out.push(json!({"field": "result", "expected": "ready", "observed": "pending"})),
+                        Poll::Ready(r) => {
+                            if fail {
+                                if errno_of(&r) != Some(ERRNO) {
+                                    $out.push(json!({"field": "error result", "expected": ERRNO, "observed": format!("{:?}", r.map(|_| ()))}));
+                                }
+                            } else {
+                                match r {
+                                    Err(e) => $out.push(json!({"field": "successful result", "expected": res, "observed": format!("{e:?}")})),
+                                    Ok(v) => {
+                                        #[allow(clippy::redundant_closure_call)]
+                                        if let Some(problem) = $check_ok(v, res) {
+                                            $out.push(problem);
+                                        }
+                                    }
+                                }
+                            }
+                        }
+                    }
+                }
+            }
+        }
+        let _ = $ok_res;
+    }};
     // Build the future twice: once completed successfully, once with an error.
     ($case:expr, $fx:expr, $out:expr, $ptrs:expr, $make:expr, $ok_res:expr, $check_ok:expr) => {{
         for fail in [false, true] {
@@ -811,6 +881,103 @@ fn run_case(case: &Value) -> Vec<Value> {
                     0
                 }, |info: process::WaitInfo, _res: i32| (format!("{:?}", info.signal()) != format!("{:?}", process::Signal::CHILD)).then(|| json!({"field": "siginfo decoded", "expected": "SIGCHLD", "observed": format!("{:?}", info.signal())})))
             }
+            "read_pool" => {
+                let pool = fx.pool.clone();
+                let (rfd, group) = (fx.rfd, fx.group);
+                run_op!(case, fx, &mut out, none, {
+                    let f = fd.read(pool.get());
+                    (if cur { f } else { f.from(o) }, Ptrs::default())
+                }, |_s: &Sqe| 3, |b: a10::io::ReadBuf, _res: i32| (b.len() != 3).then(|| json!({"field": "length of the selected buffer", "expected": 3, "observed": b.len()})), select (rfd, group))
+            }
+            "recv_pool" => {
+                let table = [(2, RecvFlag::PEEK), (256, RecvFlag::WAIT_ALL)];
+                let flags = flags_from(b as u32, &table, None);
+                let pool = fx.pool.clone();
+                let (rfd, group) = (fx.rfd, fx.group);
+                run_op!(case, fx, &mut out, none, {
+                    let f = fd.recv(pool.get());
+                    (match flags { Some(fl) => f.flags(fl), None => f }, Ptrs::default())
+                }, |_s: &Sqe| 3, |b: a10::io::ReadBuf, _res: i32| (b.len() != 3).then(|| json!({"field": "length of the selected buffer", "expected": 3, "observed": b.len()})), select (rfd, group))
+            }
+            "read_multishot" | "recv_multishot" => {
+                let table = [(2, RecvFlag::PEEK)];
+                let flags = flags_from(b as u32, &table, None);
+                let waker = wakers::waker(0);
+                let mut ctx = Context::from_waker(&waker);
+                simk::kernel().take_notes();
+                macro_rules! stream {
+                    ($s:expr) => {{
+                        let mut stream = $s;
+                        if Pin::new(&mut stream).poll_next(&mut ctx).is_ready() {
+                            out.push(json!({"field": "submission", "expected": "pending", "observed": "ready"}));
+                        }
+                        let _ = fx.ring.poll(Some(Duration::ZERO));
+                        let notes = simk::kernel().take_notes();
+                        let consumed: Vec<Sqe> = notes.iter().filter_map(|n| if let simk::Note::Consumed { sqe, .. } = n { Some(*sqe) } else { None }).collect();
+                        if let [sqe] = consumed.as_slice() {
+                            compare(case, fx, sqe, &none, &mut out);
+                            let taken = simk::kernel().take_buffer(fx.rfd, fx.group, b"abc");
+                            match taken {
+                                Ok((fl, n)) => {
+                                    simk::kernel().complete(fx.rfd, sqe.user_data(), n, fl | simk::CQE_F_MORE);
+                                }
+                                Err(e) => out.push(json!({"field": "buffer selection", "expected": "a buffer", "observed": e})),
+                            }
+                            let _ = fx.ring.poll(Some(Duration::ZERO));
+                            match Pin::new(&mut stream).poll_next(&mut ctx) {
+                                Poll::Ready(Some(Ok(b))) => {
+                                    if b.len() != 3 {
+                                        out.push(json!({"field": "length of the selected buffer", "expected": 3, "observed": b.len()}));
+                                    }
+                                }
+                                other => out.push(json!({"field": "multishot result", "expected": "a buffer", "observed": format!("{:?}", other.map(|o| o.map(|r| r.map(|_| ()))))})),
+                            }
+                        } else {
+                            out.push(json!({"field": "submission", "expected": "one entry", "observed": consumed.len()}));
+                        }
+                        drop(stream);
+                        let _ = fx.ring.poll(Some(Duration::ZERO));
+                    }};
+                }
+                if op == "read_multishot" {
+                    stream!(fd.multishot_read(fx.pool.clone()));
+                } else {
+                    let s = fd.multishot_recv(fx.pool.clone());
+                    stream!(match flags { Some(fl) => s.flags(fl), None => s });
+                }
+            }
+            "pipe" => run_op!(case, fx, &mut out, none, { (a10::pipe::pipe(sq.clone()).kind(k), Ptrs::default()) }, |s: &Sqe| {
+                let fds = s.addr() as *mut i32;
+                let (x, y) = if kind == "direct" {
+                    (81, 82)
+                } else {
+                    let x = simk::kernel().alloc_fd();
+                    let y = simk::kernel().alloc_fd();
+                    (x, y)
+                };
+                unsafe {
+                    fds.write(x);
+                    fds.add(1).write(y);
+                }
+                0
+            }, |fds: [a10::AsyncFd; 2], _res: i32| {
+                let problem = (fds[0].kind() != k || fds[1].kind() != k).then(|| json!({"field": "kind of the pipe descriptors", "expected": kind, "observed": format!("{:?} {:?}", fds[0].kind(), fds[1].kind())}));
+                std::mem::forget(fds);
+                problem
+            }),
+            "to_direct" => run_op!(case, fx, &mut out, none, { (fx.file.to_direct_descriptor(), Ptrs::default()) }, |s: &Sqe| {
+                unsafe { (s.addr() as *mut i32).write(83) };
+                1
+            }, |f: a10::AsyncFd, _res: i32| {
+                let problem = (f.kind() != Kind::Direct).then(|| json!({"field": "kind after to_direct_descriptor", "expected": "direct", "observed": format!("{:?}", f.kind())}));
+                std::mem::forget(f);
+                problem
+            }),
+            "to_file" => run_op!(case, fx, &mut out, none, { (fx.direct.to_file_descriptor(), Ptrs::default()) }, |_s: &Sqe| simk::kernel().alloc_fd(), |f: a10::AsyncFd, _res: i32| {
+                let problem = (f.kind() != Kind::File).then(|| json!({"field": "kind after to_file_descriptor", "expected": "file", "observed": format!("{:?}", f.kind())}));
+                std::mem::forget(f);
+                problem
+            }),
             other => out.push(json!({"field": "operation unknown to the replayer", "expected": other, "observed": null})),
         }
         let _ = (b, c, d, o);
